@@ -63,8 +63,13 @@ func main() {
 		lists = append(lists, triples[:40]...)
 	}
 	lists = append(lists, []string{"S1"}, []string{"S2"}, []string{"U4", "X1"}, []string{"E1", "U4", "R4"}, []string{"R5"}, []string{"R6"}, []string{"X2", "R5", "R6"},
-		[]string{"G1"}, []string{"G2"}, []string{"X4", "G1"}, []string{"G1", "E2"}, []string{"G2", "G1"}, []string{"U1", "G1", "U0"})
-	full := []string{"X1", "X2", "X3", "E1", "E2", "R1", "R2", "R3", "R4", "R5", "R6", "U0", "U1", "U2", "U3", "U4", "A1", "A2", "A3"}
+		[]string{"G1"}, []string{"G2"}, []string{"X4", "G1"}, []string{"G1", "E2"}, []string{"G2", "G1"}, []string{"U1", "G1", "U0"},
+		// key values of special shape (EZ: Ed25519 keys whose Montgomery u has
+		// zero top bytes) and passphrase-protected SSH keys that are locked at
+		// every use (PE1, PR1), alone and behind foreign stanzas without arguments
+		[]string{"EZ1"}, []string{"EZ2"}, []string{"X1", "EZ1"}, []string{"EZ2", "U0", "E1"},
+		[]string{"PE1"}, []string{"PR1"}, []string{"U0", "PE1"}, []string{"U0", "PR1"}, []string{"X1", "U0", "U1", "PE1", "PR1"}, []string{"PE1", "U0"})
+	full := []string{"X1", "X2", "X3", "E1", "E2", "R1", "R2", "R3", "R4", "R5", "R6", "U0", "U1", "U2", "U3", "U4", "A1", "A2", "A3", "EZ1", "EZ2", "PE1", "PR1"}
 	for i := 0; i < r.Pick(12, 60); i++ {
 		n := 4 + rng.Intn(5)
 		l := make([]string, n)
@@ -155,7 +160,12 @@ func fillers(file []string) []age.Identity {
 	}
 	var out []age.Identity
 	for _, n := range []string{"X4", "E3", "R2", "X3", "R3"} {
-		if !in[n] {
+		same := in[n]
+		for _, p := range keys.Flatten(keys.Ps(file...)) {
+			// (PR1 is the passphrase-protected copy of R2's key: R2 opens its files)
+			same = same || keys.SameKey(p, keys.P(n))
+		}
+		if !same {
 			out = append(out, keys.P(n).Identity)
 		}
 	}
